@@ -3,7 +3,7 @@ from core import *
 from pslib import *
 from schnorrlib import *
 
-RULE = ("for N in {1,2,3,5,8,13}, a key with chosen discrete logs and a key from KeyPair::new: honest signature "
+RULE = ("for N in {1,2,3,5,8,13,17,34}, a key with chosen discrete logs and a key from KeyPair::new: honest signature "
         "requests from the library prover (messages over the edge set and random), verified, blind-signed (u random / 1 "
         "/ 0), unblinded with the requester's factor and verified on the message and on every single-coordinate "
         "change; every single-field tamper of the request (C, T, blinding-factor response, each response scalar) and a "
@@ -11,7 +11,7 @@ RULE = ("for N in {1,2,3,5,8,13}, a key with chosen discrete logs and a key from
 TRUSTED = ["theorems C08_* over an arbitrary field; correspondence ops: srp_prove, srp_verify, vbm_sign, bsig_unblind, sig_verify"]
 ASSUMPTIONS = ["'on no tuple differing in any coordinate': proved for single-coordinate differences; a multi-coordinate "
                "difference is accepted iff <Y~, m - m'> = 0 (theorem), which needs a discrete log of the key (not proved)"]
-NS = [1, 2, 3, 5, 8, 13]
+NS = [1, 2, 3, 5, 8, 13, 17, 34]
 
 
 def run(run, h):
@@ -57,7 +57,7 @@ def one(run, h, batch, rng, key):
     run.case(case)
     run.count("u=%s" % ("0" if u == 0 else "nz"))
     run.check_monitor("unblinded_signature_verifies_on_requested_message", ver == (u != 0), dict(case, impl=ver))
-    for j in (range(n) if n <= 5 else sorted(rng.sample(range(n), 3))):
+    for j in pick_coords(rng, n, 3, run.tier == "thorough"):
         ms2 = list(ms)
         ms2[j] = (ms[j] + rng.choice([1, Q - 1, rand_nz(rng)])) % Q
         got = h.call("sig_verify", n, key["pk_hex"], scs(ms2), sg_tok)[0] == "1"
@@ -95,7 +95,7 @@ def one(run, h, batch, rng, key):
     tamper("C", cp_bytes(pt_add(p["C"], 1), p["T"], p["rbf"], p["rs"]), ctx)
     tamper("T", cp_bytes(p["C"], pt_add(p["T"], rand_nz(rng)), p["rbf"], p["rs"]), ctx)
     tamper("rbf", cp_bytes(p["C"], p["T"], (p["rbf"] + 1) % Q, p["rs"]), ctx)
-    for j in (range(n) if n <= 5 else sorted(rng.sample(range(n), 3))):
+    for j in pick_coords(rng, n, 3, run.tier == "thorough"):
         rs2 = list(p["rs"])
         rs2[j] = (rs2[j] + rng.choice([1, Q - 1, rand_nz(rng)])) % Q
         tamper("r:%d" % j, cp_bytes(p["C"], p["T"], p["rbf"], rs2), ctx)
